@@ -22,13 +22,14 @@
    network, both back-ends) ties pgmpy to the truncated factorisation.
    PROVED UNBOUNDED since (section 6): the adjustment FORMULA itself, for every DAG of every size and every set Z that
    passes pgmpy's own test is_valid_backdoor and contains no descendant of x (C13_backdoor_adjustment_formula, from
-   the factorisation / global Markov theorem of Base/Markov.v); what remains finite-domain is only the link from
-   that formula to the literal loop of [query] on a [bnet]. *)
+   the factorisation / global Markov theorem of Base/Markov.v), and the LINK from that formula to the literal loop of
+   [query] on a [bnet] (section 7: C13_backdoor_adjustment_is_truncated, for every network and every set that passes
+   pgmpy's test and contains no descendant of x).  The _upto3_grid theorem is kept as an independent check. *)
 From Coq Require Import List Bool Arith PeanoNat QArith Qcanon.
 From PV Require Import Base.Reach Base.Graph Base.Semiring Base.Ravel Base.FinSum Base.RefFactor
   C08.Model C08.Spec C13.Model C13.Spec C13.ProofsDo C13.ProofsTrunc C13.ProofsAdj C13.ProofsAdjLift C13.Finite C13.ProofsRefuted
   C13.ProofsSum C13.ProofsAdjU C13.ProofsAdjEx C13.ProofsCrit C13.ProofsCritLift C13.ProofsBdGrid C13.ProofsBdGridLift
-  C13.ProofsBackdoorAll.
+  C13.ProofsBackdoorAll C13.ProofsBdLink C13.ProofsBdLinkEx.
 From Coq Require Import Permutation.
 Import ListNotations.
 Local Close Scope Q_scope.
@@ -335,3 +336,43 @@ Example C13_backdoor_formula_nonvacuous :
   wf_graph g /\ acyclic g /\ is_valid_backdoor g 0 2 [1%nat] = true /\ is_valid_backdoor g 0 2 [] = false /\
   (forall z, In z [1%nat] -> ~ dpath g 0 z).
 Proof. exact backdoor_formula_nonvacuous. Qed.
+
+(* ================================================================== 7. back-door adjustment by [query], every size *)
+
+(* UNBOUNDED.  For EVERY network (any number of nodes, any cardinalities) and EVERY explicitly given adjustment set Z
+   that pgmpy's own test accepts for each queried variable and that contains no descendant of x, the engine's answer
+       query bn Y [(x, xv)] (Some Z)
+   -- inner posteriors P(Y | x, z) and P(z) (specification of the VE/BP calls), the dictionary merge, the loop over
+   the states of Z, the final normalisation, the definedness flag (PROVED to hold) -- is the truncated factorisation
+   marginalised to Y, as a whole table.  Both branches of the code: Z = {} (plain conditioning) and the loop.
+   Hypotheses: the graph is a well-formed DAG; there is one CPD per node ([cof v], the CPD list is a permutation
+   of them), its parents are graph parents, it is normalised on in-range assignments; cardinalities are positive;
+   Y and Z are duplicate-free sets of nodes, Y avoids x and Z, x is not in Z; positivity: P(x = xv, z) <> 0 for
+   every in-range z (the denominators of the inner queries).
+   Proof: ProofsBdLink.v (the CPD-product joint is the product of node potentials, the model's numerators and
+   denominators are marginals, Spec.trunc_marg is Backdoor.trunc) on top of C13_backdoor_adjustment_formula
+   (Base/Backdoor.v, Base/Markov.v).  With C13_backdoor_test_iff_criterion_upto4 / C13_backdoor_checker_decides the
+   test hypothesis is the path criterion on the finite domain where that agreement is proved. *)
+Theorem C13_backdoor_adjustment_is_truncated : forall bn cof x xv Y Z,
+  wf_graph (bg bn) -> acyclic (bg bn) ->
+  Permutation (bcpds bn) (map cof (nodes (bg bn))) ->
+  (forall v, In v (nodes (bg bn)) ->
+     cvar (cof v) = v /\ forall p, In p (cpars (cof v)) -> In p (parents (bg bn) v)) ->
+  (forall v, In v (nodes (bg bn)) -> normalised (bcard bn) (nodes (bg bn)) (cof v)) ->
+  (forall v, In v (nodes (bg bn)) -> (0 < bcard bn v)%nat) ->
+  In x (nodes (bg bn)) -> (xv < bcard bn x)%nat ->
+  NoDup Y -> incl Y (nodes (bg bn)) -> (forall y, In y Y -> ~ In y (x :: Z)) ->
+  NoDup Z -> incl Z (nodes (bg bn)) -> ~ In x Z ->
+  (forall y, In y Y -> is_valid_backdoor (bg bn) x y Z = true) ->
+  (forall z, In z Z -> ~ dpath (bg bn) x z) ->
+  (forall b, vOn (bcard bn) (nodes (bg bn)) b -> post_den bn Y (zev Z b ++ [(x, xv)]) b <> 0%Qc) ->
+  query bn Y [(x, xv)] (Some Z) = inr (trunc_table bn Y [(x, xv)]).
+Proof. exact backdoor_adjustment_is_truncated. Qed.
+Print Assumptions C13_backdoor_adjustment_is_truncated.
+
+(* non-vacuity: U -> X, U -> Y, X -> Y with strictly positive CPDs, do(X = 0), query Y: {U} passes the test (the
+   empty set does not) and every hypothesis above is discharged *)
+Example C13_backdoor_adjustment_instance :
+  is_valid_backdoor (bg ex_bn) 0 2 [1%nat] = true /\ is_valid_backdoor (bg ex_bn) 0 2 [] = false /\
+  query ex_bn [2%nat] [(0, 0)]%nat (Some [1%nat]) = inr (trunc_table ex_bn [2%nat] [(0, 0)]%nat).
+Proof. exact backdoor_link_example. Qed.
